@@ -36,18 +36,18 @@ func (c01) Plan(tier string) []core.Segment {
 	}
 	return []core.Segment{
 		{Gen: "small", Profile: small, Count: gen.Size("small", small), Exhaustive: true, Desc: "all strings up to the bound, shortlex", Batch: 200000},
-		{Gen: "soup", Profile: "crnul", Count: scale(tier, 300_000, 12_000_000)},
+		{Gen: "soup", Profile: "crnul", Count: scale(tier, 300_000, 4_000_000)},
 		{Gen: "spec", Count: gen.CorpusSize(), Exhaustive: true},
 		{Gen: "specprefix", Count: gen.PrefixCount(), Exhaustive: true},
-		{Gen: "specmut", Count: scale(tier, 100_000, 4_000_000)},
-		{Gen: "lines", Profile: "default", Count: scale(tier, 100_000, 4_000_000)},
+		{Gen: "specmut", Count: scale(tier, 100_000, 1_500_000)},
+		{Gen: "lines", Profile: "default", Count: scale(tier, 100_000, 1_500_000)},
 		{Gen: "limits", Profile: "default", Count: scale(tier, 4_000, 100_000), Desc: "documents on numeric thresholds: 999-character labels, 9-digit list numbers, reference digit counts, scheme and domain lengths, line endings on the 8 KiB read window, indentation columns, long runs, deep nesting"},
-		{Gen: "defsplit", Profile: "default", Count: scale(tier, 100_000, 4_000_000), Desc: "definition-like paragraphs cut into lines at every place, inside containers with space/tab/partly consumed tab prefixes and hostile bytes right after the prefix"},
-		{Gen: "modeldoc", Profile: "full", Count: scale(tier, 40_000, 2_000_000), Desc: "Markdown of model documents: nested containers, structural tabs, laziness, multi-line inline constructs"},
-		{Gen: "modeldoc", Profile: "deep", Count: scale(tier, 4000, 200000), Desc: "Markdown of model documents: nested containers, structural tabs, laziness, multi-line inline constructs", Batch: 2000},
-		{Gen: "lines", Profile: "hostile", Count: scale(tier, 100_000, 4_000_000)},
+		{Gen: "defsplit", Profile: "default", Count: scale(tier, 100_000, 1_500_000), Desc: "definition-like paragraphs cut into lines at every place, inside containers with space/tab/partly consumed tab prefixes and hostile bytes right after the prefix"},
+		{Gen: "modeldoc", Profile: "full", Count: scale(tier, 40_000, 600_000), Desc: "Markdown of model documents: nested containers, structural tabs, laziness, multi-line inline constructs"},
+		{Gen: "modeldoc", Profile: "deep", Count: scale(tier, 4000, 60000), Desc: "Markdown of model documents: nested containers, structural tabs, laziness, multi-line inline constructs", Batch: 2000},
+		{Gen: "lines", Profile: "hostile", Count: scale(tier, 100_000, 1_500_000)},
 		{Gen: "patho", Count: gen.PathoCount(), Exhaustive: true},
-		{Gen: "bigdoc", Count: scale(tier, 1500, 40000), Desc: "8-40 KiB documents of many small blocks with NUL/CR/multi-byte bytes planted at 8 KiB multiples", Batch: 100},
+		{Gen: "bigdoc", Count: scale(tier, 1500, 12000), Desc: "8-40 KiB documents of many small blocks with NUL/CR/multi-byte bytes planted at 8 KiB multiples", Batch: 100},
 		{Gen: "prose", Count: scale(tier, 12, 120), Desc: "prose-like documents 8 KiB .. 2 MiB with NUL runs and CR at chunk edges", Batch: 1},
 	}
 }
